@@ -186,61 +186,6 @@ example : ∃ (n : Node) (mode : Mode), armedFor n mode.fab = false ∧
 
 /-! ## factory reset -/
 
-theorem delFabricKeys_spec (hi : Nat) : ∀ (fuel i : Nat) (cur : KV) (acc : List KV),
-    (delFabricKeys hi i fuel cur acc).1.fabs = cur.fabs.filter (fun f => !(decide (i ≤ f.idx) && decide (f.idx < min hi (i + fuel)))) ∧
-    (delFabricKeys hi i fuel cur acc).1.nets = cur.nets ∧ (delFabricKeys hi i fuel cur acc).1.resum = cur.resum := by
-  intro fuel
-  induction fuel with
-  | zero =>
-    intro i cur acc
-    refine ⟨?_, by simp [delFabricKeys], by simp [delFabricKeys]⟩
-    simp only [delFabricKeys]
-    rw [eq_comm, List.filter_eq_self]
-    intro f _
-    simp; omega
-  | succ fuel ih =>
-    intro i cur acc
-    by_cases hge : i ≥ hi
-    · refine ⟨?_, by simp [delFabricKeys, hge], by simp [delFabricKeys, hge]⟩
-      simp only [delFabricKeys, hge, if_true]
-      rw [eq_comm, List.filter_eq_self]
-      intro f _
-      simp; omega
-    · by_cases hk : cur.hasFabric i = true
-      · have ⟨h1, h2, h3⟩ := ih (i + 1) (cur.delFabric i) (cur.delFabric i :: acc)
-        have heq : delFabricKeys hi i (fuel + 1) cur acc =
-            delFabricKeys hi (i + 1) fuel (cur.delFabric i) (cur.delFabric i :: acc) := by
-          simp [delFabricKeys, hge, hk]
-        rw [heq]
-        refine ⟨?_, by rw [h2]; rfl, by rw [h3]; rfl⟩
-        rw [h1]
-        simp only [KV.delFabric, List.filter_filter]
-        apply List.filter_congr
-        intro f _
-        by_cases hfi : f.idx = i
-        · have : ¬ (i ≥ hi) := hge
-          simp [hfi]; omega
-        · rw [Bool.eq_iff_iff]
-          simp [hfi]
-          constructor <;> intro h <;> omega
-      · have ⟨h1, h2, h3⟩ := ih (i + 1) cur acc
-        have heq : delFabricKeys hi i (fuel + 1) cur acc = delFabricKeys hi (i + 1) fuel cur acc := by
-          simp [delFabricKeys, hge, hk]
-        rw [heq]
-        refine ⟨?_, h2, h3⟩
-        rw [h1]
-        apply List.filter_congr
-        intro f hf
-        have hne : f.idx ≠ i := by
-          intro he
-          apply hk
-          unfold KV.hasFabric
-          rw [List.any_eq_true]
-          exact ⟨f, hf, by simpa using he⟩
-        rw [Bool.eq_iff_iff]
-        simp
-        constructor <;> intro h <;> omega
-
 /-- **Factory reset leaves nothing behind**: without a store fault, and with every stored fabric
 index in `1..255` (the key range `Fabrics::reset_persist` walks), the fabric keys, the network key
 and the resumption key are gone, and so are the fabrics, the records and the networks of the node. -/
@@ -250,20 +195,18 @@ theorem factory_reset_empties (cfg : Cfg) (n : Node) (hf : n.failIn = 0)
     (step cfg n .freset).1.kv.fabs = [] ∧ (step cfg n .freset).1.kv.nets = none ∧
     (step cfg n .freset).1.kv.resum = .absent ∧
     (step cfg n .freset).1.fabrics = [] ∧ (step cfg n .freset).1.resum = [] ∧ (step cfg n .freset).1.nets = [] := by
-  have hempty : (delFabricKeys 256 1 256 n.kv n.hist).1.fabs = [] := by
-    rw [(delFabricKeys_spec 256 256 1 n.kv n.hist).1, List.filter_eq_nil_iff]
-    intro f hfm
-    have := hrange f hfm
-    simp; omega
-  have hn := (delFabricKeys_spec 256 256 1 n.kv n.hist).2.1
-  have hr := (delFabricKeys_spec 256 256 1 n.kv n.hist).2.2
-  simp only [step, isSessOp, hf, ne_eq, not_true_eq_false, if_false]
-  rcases hd : delFabricKeys 256 1 256 n.kv n.hist with ⟨kv1, hist1⟩
-  rw [hd] at hempty hn hr
-  simp only at hempty hn hr
-  simp only [ok, kvCommit]
-  refine ⟨?_, ?_, ?_, ?_, ?_, ?_, ?_⟩
-  all_goals (repeat' split) <;> simp_all
+  have ⟨h1, _, h3, _, h5, h6, h7, _⟩ := factoryReset_mem n
+  have ⟨hk, hst⟩ := factoryReset_store n hf hrange
+  exact ⟨hst, hk, h6, h5, h1, h3, h7⟩
+
+/-- a factory reset that IS hit by a store fault answers the error and still leaves nothing in
+memory (no fabric, no resumption record, no network) and neither the resumption nor the network key
+in the store - fabric keys may stay (from the one whose removal failed on) -/
+theorem faulty_factory_reset (cfg : Cfg) (n : Node) :
+    (step cfg n .freset).1.fabrics = [] ∧ (step cfg n .freset).1.resum = [] ∧ (step cfg n .freset).1.nets = [] ∧
+    (step cfg n .freset).1.kv.resum = .absent ∧ (step cfg n .freset).1.kv.nets = none := by
+  have ⟨h1, _, h3, _, h5, h6, h7, _⟩ := factoryReset_mem n
+  exact ⟨h1, h3, h7, h5, h6⟩
 
 example : ∃ n : Node, n.failIn = 0 ∧ (∀ f ∈ n.kv.fabs, 1 ≤ f.idx ∧ f.idx ≤ 255) ∧ n.kv.fabs ≠ [] :=
   ⟨{ kv := { fabs := [{ idx := 1, gen := 1, ca := 1, fid := 1, node := 1, ser := 1, acl := [], grp := [], label := 0 }] } },
